@@ -1,8 +1,8 @@
 From Coq Require Import Extraction ExtrOcamlBasic.
 From Coq Require Import ZArith NArith.
-From JP Require Import Base Ast Eval ValueModel Spec NormPath Known WellFormed Regex Entry Peg Dec2Bin Build Concrete Reference.
+From JP Require Import Base Ast Eval ValueModel Spec NormPath Known WellFormed Regex Entry Peg Dec2Bin Build Concrete Reference RefFast.
 From JP.gen Require Import Grammar.
 Extraction Language OCaml.
 
-Extraction "model.ml" m_query rfc_query cur_query np names_plain names_single doc_plain doc_exact53 wf_query parse_query rfc_parse m_reference rfc_reference set_at strict_query rx_query_ok parse_query
+Extraction "model.ml" m_query rfc_query cur_query np names_plain names_single doc_plain doc_exact53 wf_query parse_query rfc_parse m_reference rfc_reference m_reference_fast rfc_reference_fast set_at strict_query rx_query_ok parse_query
   wf_json lookup Z.of_nat N.of_nat Z.opp Z.mul Z.add Z.div Z.modulo N.mul N.add.
